@@ -2324,6 +2324,8 @@ struct evrrul_s {
 
 	/* iterator state */
 	size_t rdi;
+	/* the instant we handed out last */
+	echs_instant_t last;
 	/* unrolled cache */
 	size_t ncch;
 	echs_instant_t cch[GRP_CCH_OFF + GRP_CCH_OFF];
@@ -2506,6 +2508,7 @@ next_evrrul(echs_evstrm_t s, bool popp)
 	struct evrrul_s *restrict this = (struct evrrul_s*)s;
 	echs_event_t res;
 
+again:
 	/* it's easier when we just have some precalc'd rdates */
 	if (this->rdi >= this->ncch) {
 		/* we have to refill the rdate cache */
@@ -2515,11 +2518,18 @@ next_evrrul(echs_evstrm_t s, bool popp)
 		/* reset counter */
 		this->rdi = 0U;
 	}
+	if (UNLIKELY(echs_instant_eq_p(this->cch[this->rdi], this->last))) {
+		/* two dates of the rule have been moved onto the same day,
+		 * we're a set, don't hand it out again */
+		this->rdi++;
+		goto again;
+	}
 	/* construct the result */
 	res = this->e;
 	res.from = this->cch[this->rdi];
 	res.grp = this->cch[this->rdi + GRP_CCH_OFF];
 	if (popp) {
+		this->last = res.from;
 		this->rdi++;
 	}
 	return res;
